@@ -226,6 +226,10 @@ func (t attrSelector) Match(n *html.Node) bool {
 		return attributeNotEqualMatch(t.key, t.val, n, t.ignoreCase)
 	case "~=":
 		// matches elements where the attribute named key is a whitespace-separated list that includes val.
+		// "If val contains whitespace, it will never represent anything [...]. Also if val is the empty string".
+		if t.val == "" || strings.ContainsAny(t.val, " \t\n\r\f") {
+			return false
+		}
 		return matchAttribute(n, t.key, func(s string) bool { return matchInclude(t.val, s, t.ignoreCase) })
 	case "|=":
 		return attributeDashMatch(t.key, t.val, n, t.ignoreCase)
@@ -346,6 +350,9 @@ func attributeDashMatch(key, val string, n *html.Node, ignoreCase bool) bool {
 // attributePrefixMatch returns a Selector that matches elements where
 // the attribute named key starts with val.
 func attributePrefixMatch(key, val string, n *html.Node, ignoreCase bool) bool {
+	if val == "" { // "If val is the empty string then the selector does not represent anything."
+		return false
+	}
 	return matchAttribute(n, key,
 		func(s string) bool {
 			if strings.TrimSpace(s) == "" {
@@ -361,6 +368,9 @@ func attributePrefixMatch(key, val string, n *html.Node, ignoreCase bool) bool {
 // attributeSuffixMatch matches elements where
 // the attribute named key ends with val.
 func attributeSuffixMatch(key, val string, n *html.Node, ignoreCase bool) bool {
+	if val == "" { // "If val is the empty string then the selector does not represent anything."
+		return false
+	}
 	return matchAttribute(n, key,
 		func(s string) bool {
 			if strings.TrimSpace(s) == "" {
@@ -376,6 +386,9 @@ func attributeSuffixMatch(key, val string, n *html.Node, ignoreCase bool) bool {
 // attributeSubstringMatch matches nodes where
 // the attribute named key contains val.
 func attributeSubstringMatch(key, val string, n *html.Node, ignoreCase bool) bool {
+	if val == "" { // "If val is the empty string then the selector does not represent anything."
+		return false
+	}
 	return matchAttribute(n, key,
 		func(s string) bool {
 			if strings.TrimSpace(s) == "" {
